@@ -33,7 +33,9 @@ type tok struct {
 
 var alphabet = []tok{
 	{"a", 8}, {"b", 4}, {"Z", 3}, {"0", 3}, {"7", 2}, {"_", 2}, {"-", 4}, {".", 3}, {"/", 3}, {",", 1}, {":", 2}, {"@", 1}, {"+", 1}, {"^", 1},
-	{" ", 9}, {"\t", 2}, {"\n", 3}, {"\r", 1},
+	{" ", 9}, {"\t", 2}, {"\n", 3}, {"\r", 2},
+	// line endings as multi-byte tokens: a CR directly before a LF is what a shell lexer may fold
+	{"\r\n", 5}, {"a\r\nb", 2}, {"\n\r", 1}, {"\t\r\n", 1}, {"\r\r\n", 1},
 	{"'", 7}, {"\"", 7}, {"$", 5}, {"\\", 6}, {"`", 3}, {"!", 2}, {"*", 3}, {"?", 2}, {"[", 2}, {"]", 2}, {"{", 2}, {"}", 2},
 	{"(", 2}, {")", 2}, {"<", 2}, {">", 2}, {"|", 2}, {"&", 2}, {";", 2}, {"#", 2}, {"~", 2}, {"=", 4}, {"%", 2}, {"%s", 1},
 	{"$HOME", 1}, {"${HOME}", 1}, {"$(echo pwned)", 1}, {"`echo pwned`", 1}, {"$'x'", 1}, {"\\n", 1}, {"--", 1}, {"-x", 1}, {"''", 1}, {"\"\"", 1},
@@ -112,6 +114,17 @@ func genString(r *rand.Rand, maxLen int, o genOpts) string {
 	}
 	if len(b) > maxLen {
 		b = b[:maxLen]
+	}
+	if !o.fileName && len(b) > 0 && len(b)+4 <= maxLen {
+		// line endings at the very start / end of an argument
+		switch r.Intn(20) {
+		case 0:
+			b = append([]byte("\r\n"), b...)
+		case 1:
+			b = append(b, "\r\n"...)
+		case 2:
+			b = append(b, '\r')
+		}
 	}
 	s := string(b)
 	if o.utf8Only && !utf8.ValidString(s) {
@@ -215,6 +228,8 @@ var ways = []string{"clivar", "osenv", "yaml", "sh"}
 var fixedValues = []string{
 	"a=b", "=", "==", "=a", "a=", "a=b=c", "a = b", "X=Y", "", " ", "a b", "'", "\"", "$HOME", "$(echo pwned)", "`echo pwned`", "\\", "a\\ b", "*", "~", "#x", "a;b", "a|b", "a&b", "a>b",
 	"{{.TASK}}", "{{", "}}", "<no value>", "%s", "-x", "--", "a\nb", "\t", "é", "\xff", "\x01",
+	// CR / LF in every position (start, middle, end of the argument)
+	"\r\n", "a\r\nb", "\n\r", "\r", "\n", "\t\r\n", "\r\nx", "x\r\n", "a\rb", "first line\r\nsecond line\r\n", "a b\r\nc d", "\r\n\r\n", "tab\there\r\n",
 }
 
 func generate() []*acase {
@@ -382,6 +397,15 @@ func diffClass(exp, obs []string) string {
 			return "argument boundaries moved"
 		}
 		return fmt.Sprintf("argument count differs (%s)", map[bool]string{true: "fewer", false: "more"}[len(obs) < len(exp)])
+	}
+	crlf := true
+	for i := range exp {
+		if obs[i] != strings.ReplaceAll(exp[i], "\r\n", "\n") {
+			crlf = false
+		}
+	}
+	if crlf {
+		return "a carriage return directly before a line feed is lost"
 	}
 	return "bytes differ"
 }
@@ -629,7 +653,7 @@ func Run(id string, start time.Time) int {
 	})
 	rep := h.Report{
 		ID: id, Level: "exploration", Start: start, MinEvents: 200, EventsKey: "argv_records",
-		Rule: "one case = one CLI run. cliargs: a vector of 0-6 strings (0-200 bytes each, weighted alphabet of shell, template and YAML metacharacters, control bytes 0x01-0x1f, 0x7f, raw bytes 0x80-0xff, multi-byte UTF-8, leading dashes; NUL excluded) is passed after '--' to a task whose command is '<argdump> A {{.CLI_ARGS}} Z'; the helper records its argv, which must equal [A, args..., Z] byte for byte. var: one such string reaches {{shellQuote .X}} and {{q .X}} (command '<argdump> A {{shellQuote .X}} Z') as a CLI assignment X=value (this also decides the first-'=' splitting rule), as an OS environment variable, as a Taskfile literal (UTF-8, no template tokens: a literal is documented to be a template) or as the output of a dynamic variable; argv must be [A, value, Z]. init: `task --init [path]` in a fresh directory for a fixed list of path shapes (none, directories, files, extension-only, absolute, names with spaces/quotes/template characters) plus seeded random file names, x {target absent, target present}: exactly one file may appear, at the place the path names, with the default Taskfile's content; an existing target must stay byte-identical and nothing else may appear. A fixed list of classic values is always included; the rest is seeded. distinct key = hash of the argument bytes (and way); non-trivial = some argument contains a byte outside [A-Za-z0-9_./,:@+-] or is empty (init: a path argument is given).",
+		Rule: "one case = one CLI run. cliargs: a vector of 0-6 strings (0-200 bytes each, weighted alphabet of shell, template and YAML metacharacters, control bytes 0x01-0x1f, 0x7f, raw bytes 0x80-0xff, multi-byte UTF-8, leading dashes; NUL excluded) is passed after '--' to a task whose command is '<argdump> A {{.CLI_ARGS}} Z'; the helper records its argv, which must equal [A, args..., Z] byte for byte. var: one such string reaches {{shellQuote .X}} and {{q .X}} (command '<argdump> A {{shellQuote .X}} Z') as a CLI assignment X=value (this also decides the first-'=' splitting rule), as an OS environment variable, as a Taskfile literal (UTF-8, no template tokens: a literal is documented to be a template) or as the output of a dynamic variable; argv must be [A, value, Z]. init: `task --init [path]` in a fresh directory for a fixed list of path shapes (none, directories, files, extension-only, absolute, names with spaces/quotes/template characters) plus seeded random file names, x {target absent, target present}: exactly one file may appear, at the place the path names, with the default Taskfile's content; an existing target must stay byte-identical, nothing else may appear and the run must not report success (for an extension-only argument the pre-existing file is the expansion Taskfile.<ext>, the literal name, or both). A fixed list of classic values is always included; the rest is seeded. distinct key = hash of the argument bytes (and way); non-trivial = some argument contains a byte outside [A-Za-z0-9_./,:@+-] or is empty (init: a path argument is given).",
 		Assumptions: []string{
 			"the helper binary records exactly what execve handed it (hex-encoded, one O_APPEND write per invocation)",
 			"NUL bytes cannot be passed through argv/environment and are excluded",
